@@ -118,7 +118,7 @@ fn guarded<T>(label: &str, dangerous: bool, input: &[u8], f: impl FnOnce() -> T 
 }
 
 pub fn run(seed: u64, tier: &str, shard: u64) {
-    let n = if tier == "thorough" { 60000 } else { 4000 };
+    let n = if tier == "thorough" { 60000 } else if tier == "miri" { 40 } else { 4000 };
     let mut master = Rng::new(seed ^ shard.wrapping_mul(0xC20C_20C2_0C20_C20C));
     // (1) structured round trips
     for i in 0..n {
@@ -155,8 +155,8 @@ pub fn run(seed: u64, tier: &str, shard: u64) {
             report::sample(3, || J::obj().with("request", dbg_req(&q).chars().take(100).collect::<String>()).with("response", format!("{:?}", p).chars().take(100).collect::<String>()).with("encoded_len", b.len()));
         }
     }
-    // frame size boundary (once per shard 0)
-    if shard == 0 {
+    // frame size boundary (once per shard 0; 16 MiB buffers are out of reach of the interpreter tier)
+    if shard == 0 && tier != "miri" {
         for (len, ok) in [(0usize, true), (1, true), (MAX_MESSAGE_SIZE - 1, true), (MAX_MESSAGE_SIZE, true), (MAX_MESSAGE_SIZE + 1, false)] {
             let payload = vec![0xABu8; len];
             let mut framed = vec![];
@@ -182,7 +182,7 @@ pub fn run(seed: u64, tier: &str, shard: u64) {
         }
     }
     // (3) garbage
-    let m = if tier == "thorough" { 200000 } else { 12000 };
+    let m = if tier == "thorough" { 200000 } else if tier == "miri" { 150 } else { 12000 };
     for i in 0..m {
         let mut r = master.fork(1_000_000 + i);
         let (bytes, dangerous): (Vec<u8>, bool) = match r.below(10) {
